@@ -401,7 +401,7 @@ func (cx *Contracts) finishClause(ct *Contract, kind string, cl *Clause, cf *Con
 		if cc.Label == "" {
 			cc.Label = fmt.Sprintf("cs%d", len(ct.CallSites)+1)
 		}
-		ct.CallSites = append(ct.CallSites, CallSiteClause{Callee: f[0], Clause: cc})
+		ct.CallSites = append(ct.CallSites, CallSiteClause{Callee: strings.ReplaceAll(f[0], "dollar_", "$"), Clause: cc})
 		return
 	}
 	if kind == "let" {
